@@ -745,3 +745,46 @@ Proof.
   intros h x Hok HI. destruct (remove_exact h x Hok HI) as [R _].
   eapply removed_perm; eauto.
 Qed.
+
+(** * unfolded statements (for Properties/C12.v) *)
+
+Lemma idx_inv_unfolded : forall (ps : list prim) (h' : fheap),
+  prim_run empty_heap ps = Some h' ->
+  (forall k, (k < length (arr h'))%nat -> idx (get (hs h') (nth k (arr h') 0%N)) = Z.of_nat k) /\
+  (forall x, ~ In x (arr h') -> idx (get (hs h') x) = -1).
+Proof. intros ps h' H. exact (idx_inv ps empty_heap h' idx_ok_empty H). Qed.
+
+Lemma remove_exact_unfolded : forall (h : fheap) (x : fid),
+  idx_ok h -> In x (arr h) ->
+  let r := heap_remove h (idx (get (hs h) x)) in
+  snd r = x /\
+  (forall y, In y (arr (fst r)) <-> In y (arr h) /\ y <> x) /\
+  S (length (arr (fst r))) = length (arr h) /\
+  (forall y, fireT (get (hs (fst r)) y) = fireT (get (hs h) y) /\
+             live (get (hs (fst r)) y) = live (get (hs h) y)) /\
+  bad (fst r) = bad h /\ idx_ok (fst r) /\ idx (get (hs (fst r)) x) = -1.
+Proof.
+  intros h x Hok HI. destruct (remove_exact h x Hok HI) as [[A B C D E F] G].
+  cbv zeta. split; [exact G|]. split; [exact A|]. split; [exact B|]. split; [exact C|].
+  split; [exact D|]. split; [exact E|exact F].
+Qed.
+
+Lemma pop_head_unfolded : forall (h : fheap),
+  idx_ok h -> arr h <> [] ->
+  let r := heap_pop h in
+  snd r = nth 0 (arr h) 0%N /\
+  (forall y, In y (arr (fst r)) <-> In y (arr h) /\ y <> snd r) /\
+  bad (fst r) = bad h /\ idx_ok (fst r) /\ idx (get (hs (fst r)) (snd r)) = -1.
+Proof.
+  intros h Hok Hne. destruct (pop_head h Hok Hne) as [[A B C D E F] G].
+  cbv zeta. rewrite G. split; [reflexivity|]. split; [exact A|]. split; [exact D|].
+  split; [exact E|exact F].
+Qed.
+
+Lemma push_exact_unfolded : forall (h : fheap) (x : fid),
+  idx_ok h -> ~ In x (arr h) ->
+  let h' := heap_push h x in
+  (forall y, In y (arr h') <-> In y (arr h) \/ y = x) /\ bad h' = bad h /\ idx_ok h'.
+Proof.
+  intros h x Hok Hx. destruct (push_exact h x Hok Hx) as [A B C D E]. cbv zeta. auto.
+Qed.
